@@ -93,6 +93,7 @@ type Exec struct {
 	freshBytes     map[string]bool
 	detExt         map[string]bool
 	preludeText    string
+	absMaps        map[string]bool // map types (by their dom heap key) whose contents this function does not model
 	entryAsserts   int     // number of background assertions that describe the entry state only (axioms, parameter facts, requires)
 	replayFacts    []*Term // facts about values synthesised for a replay
 	labels         map[string]*State
@@ -505,6 +506,21 @@ func (x *Exec) run() (err error) {
 	fn := x.fn
 	if len(fn.Blocks) == 0 {
 		return fmt.Errorf("function %s has no body", x.key)
+	}
+	x.absMaps = map[string]bool{}
+	if x.fc != nil {
+		for _, ts := range x.fc.Abstract {
+			t, err := x.goType(ts, x.pkg)
+			if err != nil {
+				return fmt.Errorf("abstract maps(%s): %v", ts, err)
+			}
+			mt, ok := t.Underlying().(*types.Map)
+			if !ok {
+				return fmt.Errorf("abstract maps(%s): not a map type", ts)
+			}
+			x.absMaps[mapDomKey(mt)] = true
+			x.noteDropped("contents of maps of type " + ts + " (declared abstract for " + x.key + ": every write havocs them)")
+		}
 	}
 	x.findLoops()
 	st := &State{cells: map[*ssa.Alloc]*Val{}, heap: map[string]*Term{}, ghost: map[string]*Val{}, iters: map[*ssa.Range]*iterData{}, reach: tTrue}
